@@ -57,6 +57,23 @@ theorem end_tag_after_indent (n ind : Str) (kids : List Node) (hpre : isPre n = 
   · rw [hpre] at h; cases h
   · rw [hraw h.1] at h; cases h.2
 
+/-- C12a read off the output text: the start tag of an element that obeys the law outside pre/code, pretty classes, is
+    written as a line break, exactly `depth` copies of the indent unit, then `<` — the tag is the first thing on its line
+    (when the unit itself contains no line break). -/
+theorem start_tag_text_pretty (cfg : Cfg) (hm : cfg.mini = false) (depth : Nat) (k : Kind) (n : Str) (st : AStore)
+    (sc : Bool) (ind : Str) (kids : List Node) (h : LayoutOK cfg depth false (.elem k n st sc ind kids)) :
+    ∃ rest, startTag k n st sc ind = '\n' :: rep depth cfg.indent ++ '<' :: rest := by
+  have hind : ind = '\n' :: rep depth cfg.indent := by
+    have := h.1
+    simpa [hm] using this
+  obtain ⟨rest, h1, h2⟩ := startTag_prefix k n st sc ind
+  cases rest with
+  | nil => simp at h2
+  | cons c r =>
+    simp only [List.head?_cons, Option.some.injEq] at h2
+    subst h2
+    exact ⟨r, by rw [h1, hind]⟩
+
 /-! #### C12c — slim output = normal output without the space before `>` -/
 
 /-- C12c on one start tag -/
@@ -200,6 +217,14 @@ theorem getIndent_isIndent (cfg : Cfg) (hm : cfg.mini = false) (hu : ∀ c ∈ c
     space of the merged piece.) -/
 theorem mini_dropped_markup_counterexample :
     squeeze (squeeze (str " ") ++ squeeze (str " b")) ≠ squeeze (str " ") ++ squeeze (str " b") := by decide
+
+/-- Why the hypothesis `NoWrapperStart`: an element that carries the reserved wrapper name in the *input* is not counted
+    when opened but is counted when closed implicitly, so what follows is indented one level too little (`<u>` below
+    `<div>` at column 0).  The property excludes the reserved name (DESIGN §8 #21). -/
+theorem reserved_name_breaks_the_law :
+    okIs (format (mkCfg .pretty (.str (str "  ")) false)
+      [.start (str "div") [], .start (str "b") [], .start (str "xxxblank") [], .end_ (str "b"), .start (str "u") []])
+      "\n<div >\n  <b >\n    <xxxblank >\n    </xxxblank>\n  </b>\n<u >\n</u>\n</div>" = true := by decide +kernel
 
 /-! #### non-vacuity -/
 
